@@ -58,7 +58,11 @@ def out_of_documented_range(op, args):
 STRINGS = ["usd", "USD", "eur", "Eur", "FOUR", "", "ab", "é1", "日", "€", "😀", "u s", "us\n", "gbp", "jpy", "a", "aé",
            "nok", "xyz", "12é", "1", "123", "é"]
 CALNAMES = ["", ",", "|", "tgt", "TGT", "tgt|", "|tgt", "tgt,,ldn", "tgt|ldn|fed", "tgt,ldn|fed", "bad", "tgt,bad", "ldn|bad",
-            "tgt ", " tgt", "tgt\n", "日本", "TgT,LdN|NyC", "all", "bus", "fed|fed", "nyc,nyc", "stK", "é", "tgt,ldn,fed,nyc,stk,osl"]
+            "tgt ", " tgt", "tgt\n", "日本", "TgT,LdN|NyC", "all", "bus", "fed|fed", "nyc,nyc", "stK", "é", "tgt,ldn,fed,nyc,stk,osl",
+            # characters whose lower-casing changes their UTF-8 length (U+0130 2 -> 3 bytes, KELVIN SIGN U+212A 3 -> 1) on either
+            # side of the separators: byte offsets taken in one spelling are not valid in the other
+            "\u0130|tgt", "tgt|\u0130", "st\u212a,st\u212a|", "tgt,st\u212a|fed", "st\u212a|st\u212a", "\u0130,tgt|fed", "\u212a|\u0130",
+            "tgt,\u0130|ldn,\u212a", "\u0130\u0130\u0130|tgt", "\u212a\u212a\u212a\u212a|tgt", "bus|st\u212a", "t\u212at|tgt"]
 
 
 def ename(s):
